@@ -49,6 +49,8 @@ case "$cmd" in
     eng="$(engine_of "$id")"
     [ "$eng" = none ] && { echo "MACHINERY-FAILURE: unknown property $id"; exit 2; }
     build_pkg "$eng" || exit 2
+    # the C08 check also runs the sequential content oracle of the enumeration binary
+    if [ "$id" = C08 ]; then build_pkg e1 || exit 2; export VERIF_E1_BIN="$CARGO_TARGET_DIR/release/e1"; fi
     export VERIF_TIER="$tier"
     if [ "$id" = C16 ]; then
       export VERIF_UNICODE_REF="$CARGO_TARGET_DIR/unicode_ref.txt"
@@ -61,6 +63,8 @@ case "$cmd" in
   replay)
     id="${2:?property id}"; file="${3:?replay file}"
     eng="$(engine_of "$id")"
+    # sequential-history cases of C08 are replayed by the enumeration binary
+    case "$file" in *C08_seq_*) eng=e1 ;; esac
     build_pkg "$eng" || exit 2
     bin="$CARGO_TARGET_DIR/release/$eng"
     [ "$eng" = e3 ] && bin="${CARGO_TARGET_DIR}-loom/release/e3"
